@@ -293,8 +293,8 @@ def run(ctx):
             jobs.append((kind, shard, ctx.seed))
     for res in lattice.pmap(_single_shard, jobs, ctx.workers):
         ctx.merge(res)
-    multi_centre(ctx)
-    loader(ctx)
+    ctx.guarded("multi_centre", multi_centre, ctx)
+    ctx.guarded("loader", loader, ctx)
     ctx.cov["alphas"] = [ALPHAS[0], ALPHAS[-1], len(ALPHAS)]
     ctx.cov["radii"] = [repr(r) for r in RS]
     ctx.exhaustive = True
